@@ -47,6 +47,14 @@ def faults(tag, base, info):
         add(f"dup-intermediate/{vk}/after", base + f"{I} = {rhs2}\n", name=I, def1=R, def2=rhs2)
         add(f"dup-intermediate/{vk}/before", f"{I} = {rhs2}\n" + base if tag == "D" else base.replace(f"{I} = {R}\n", f"{I} = {rhs2}\n{I} = {R}\n"),
             name=I, def1=rhs2, def2=R)
+    # the second definition only EXTENDS the first (same leading operands, no new names) or spells a number differently
+    ext = {"appended-divisor": f"{R}/3.0", "appended-term": f"{R} + 0.5", "appended-factor": f"({R})*({R})", "prefix-call": f"exp({R})",
+           "negated": f"-({R})", "number-respelled-and-changed": f"{R} + 5e-1"}
+    for vk, rhs2 in ext.items():
+        add(f"dup-intermediate/{vk}/after", base + f"{I} = {rhs2}\n", name=I, def1=R, def2=rhs2)
+        if tag != "D":
+            add(f"dup-intermediate/{vk}/before", base.replace(f"{I} = {R}\n", f"{I} = {rhs2}\n{I} = {R}\n"), name=I, def1=rhs2, def2=R)
+    add("dup-derivative/appended-divisor", base + f"{D} = ({DR})/3.0\n", name=D, def1=DR, def2=f"({DR})/3.0")
     add("dup-intermediate/identical", base + f"{I} = {R}\n", name=I, def1=R, def2=R)
     if "other_comp" in info:
         add("dup-intermediate/other-component", base + f'expressions("{info["other_comp"]}")\n{I} = ({R})*2\n', name=I, def1=R, def2=f"({R})*2")
@@ -84,6 +92,12 @@ def faults(tag, base, info):
     # missing derivative of a state whose component holds no assignment at all
     add("missing-derivative/component-without-assignments", base + 'states("Lonely", lone=0.1)\n', name="dlone_dt")
     add("missing-derivative/two-states-one-derivative", base + "states(m1=0.1, m2=0.2)\ndm1_dt = -m1\n", name="dm2_dt")
+    # as many derivative LINES as states, but one state has none: another state's derivative is written twice (identically,
+    # with and without a trailing unit / comment)
+    add("missing-derivative/other-derivative-repeated-with-comment",
+        base.replace(f"{D} = {DR}\n", f"{D} = {DR} # mV/ms\n{D} = {DR}\n") + "states(nn=0.3)\n", name="dnn_dt")
+    add("missing-derivative/other-derivative-repeated",
+        base.replace(f"{D} = {DR}\n", f"{D} = {DR}\n{D} = {DR}\n") + "states(nn=0.3)\n", name="dnn_dt")
     # cycles
     add("cycle/1", base + "c1 = c1 + 1\n", name="c1")
     add("cycle/2", base + f"c1 = c2 + {S}\nc2 = c1*2\n", name="c1")
